@@ -176,7 +176,7 @@ def iban_shard(args):
                          base[:4] + base[4:].lower(), base.swapcase()):
                 run_text(text, "spelling")
         if f == "distinct":
-            for lab, b, _ in families.small_field_bodies(c, body):
+            for lab, b, _ in families.small_field_bodies(c, body, include_national=True):
                 run_text(bases.iban_text(country, b), lab)
         if f in ("distinct", "max"):
             for fam, text in families.iban_lengths(base):
